@@ -26,7 +26,7 @@ ASSUMPTIONS = ["comparison is modulo exclude=True dataclass fields (they are not
 ANCHORS = ['convert:convert', 'convert:into_data', 'convert:from_data', 'converters:Converter.into_data',
            'converters:DatetimeConverter.try_convert', 'converters:PatternConverter.try_convert',
            'classes:_make_init', 'converters:UnionConverter.into_data']
-MIN_COUNTERS = {'quick': {'fixed_point_checked': 25000, 'native_values': 8000, 'ctor_checked': 2000, 'idempotence_checked': 8000}}
+MIN_COUNTERS = {'quick': {'fixed_point_checked': 25000, 'native_values': 8000, 'ctor_checked': 2000, 'idempotence_checked': 8000, 'bare_container_checks': 2000}}
 
 
 def in_scope(ty):
